@@ -117,6 +117,7 @@ class Engine(EngineBase):
                 "{job.id}",
                 f"{k0}_{{{k0}}}/{{{{auto}}}}",
                 f"{k0}_{{{k0}}}/id/{{job.id}}",
+                f"{{job.sp.{k0}}}/{{job.id}}",
             ])
         elif spec == "fn":
             path = ["fn", rng.choice(["id", "id_nested", "const", "first_key", "leafnode", "leafnode_rev"])]
@@ -130,7 +131,7 @@ class Engine(EngineBase):
         move = target == "dir" and rng.random() < 0.15
         return {"knobs": knobs, "universe": uni, "jobs": jobs, "path": path, "target": target, "move": move,
                 "schema": schema, "conflict_job": rng.randrange(0, 12) if rng.random() < 0.35 else None,
-                "foreign": rng.random() < 0.5}
+                "foreign": rng.random() < 0.5, "import_sync": rng.random() < 0.12}
 
     def shrink(self, scenario):
         jobs = scenario["jobs"]
@@ -220,7 +221,8 @@ class Run:
                 if r is None:
                     continue
                 r = str(r)
-                if not any(r == a or r.startswith(a.rstrip("/") + "/") for a in allowed):
+                if not any((r.startswith(a[:-1]) if a.endswith("*") else
+                            r == a or r.startswith(a.rstrip("/") + "/")) for a in allowed):
                     bad.append((kind, r))
         return m, bad
 
@@ -271,6 +273,9 @@ class Run:
                         pass
                     jj = _J()
                     jj.id = jid
+                    jj.sp = _J()
+                    for k, v in j["sp"].items():
+                        setattr(jj.sp, k, v)
                     out[jid] = os.path.normpath(path.format(job=jj, **j["sp"]))
                 except (KeyError, IndexError, AttributeError):
                     return None
@@ -378,11 +383,18 @@ class Run:
             self.probe("foreign_data_space")
             schema_kind = "string-foreign"
         allowed = ["dst/workspace/" + i for i in ids] + ["tmp", "dst/workspace"]
+        ikw = {}
+        if sc.get("import_sync"):
+            # import_from(sync=True) imports into a temporary project inside the workspace and
+            # synchronises from there; into an empty project that must equal a plain import
+            ikw["sync"] = True
+            allowed.append("dst/workspace/tmp*")
+            self.probe("import_with_sync")
         mon, bad = self.monitor(allowed)
         world.monitors.append(mon)
         try:
             dproj = signac.Project(dst_path)
-            dproj.import_from(target, schema=schema_arg)
+            dproj.import_from(target, schema=schema_arg, **ikw)
             iexc = None
         except Exception as e:  # noqa: BLE001
             iexc = e
